@@ -1,6 +1,6 @@
 (* Proofs for C19 (exit status and pending summary). *)
 From Coq Require Import List Arith NArith Bool Lia.
-From SV Require Import lib.Bytes gen.GenPending model.Pending.
+From SV Require Import lib.Bytes lib.SqlExpr model.PendingTypes gen.GenPending model.Pending proofs.PendingGenSpec.
 Import ListNotations.
 Open Scope N_scope.
 
@@ -523,23 +523,11 @@ Qed.
 
 Lemma cands_kinds sn u c : In c (cands sn u) -> In (c_kind c) all_kinds /\ c_kind c <> K_ROOT_RUNNABLE.
 Proof.
-  unfold cands. rewrite !in_app_iff.
-  assert (K : forall k, In k [K_ROOT_FILE; K_ROOT_RESOURCE; K_ROOT_FAILED; K_ROOT_DEFERRED; K_ROOT_OTHER; K_BLOCK_STEP] ->
-              In k all_kinds /\ k <> K_ROOT_RUNNABLE).
-  { intros k Hk. cbv in Hk. cbv. intuition (subst; try discriminate; auto 10). }
-  intros H. apply K. clear K. cbn.
-  repeat match goal with H : _ \/ _ |- _ => destruct H as [H|H] end.
-  - apply in_map_iff in H. destruct H as [f [<- _]]. cbn. auto.
-  - apply in_map_iff in H. destruct H as [f [<- _]]. cbn. auto.
-  - apply in_flat_map in H. destruct H as [f [_ H]]. apply in_map_iff in H. destruct H as [p [<- _]]. cbn. auto.
-  - destruct (unsafe_anc sn u) as [a|]; [|destruct H]. destruct (is_failed a); [|destruct H].
-    destruct H as [<-|[]]. cbn. auto.
-  - destruct (s_deferred u && _); [|destruct H]. destruct H as [<-|[]]. cbn. auto.
-  - destruct (unsafe_anc sn u) as [a|]; [|destruct H]. destruct (negb (in_U sn a) && negb (is_failed a)); [|destruct H].
-    destruct H as [<-|[]]. cbn. auto 10.
-  - apply in_flat_map in H. destruct H as [f [_ H]]. apply in_map_iff in H. destruct H as [p [<- _]]. cbn. auto 10.
-  - destruct (unsafe_anc sn u) as [a|]; [|destruct H]. destruct (in_U sn a); [|destruct H].
-    destruct H as [<-|[]]. cbn. auto 10.
+  intros H. apply cands_arm in H. destruct H as [a [Ha ->]].
+  pose proof arm_kinds_ok as K. rewrite forallb_forall in K. specialize (K a Ha).
+  apply andb_true_iff in K. destruct K as [K1 K2]. apply memN_In in K1.
+  apply negb_true_iff, N.eqb_neq in K2. split; [|exact K2].
+  unfold all_kinds, root_kinds. cbn in K1 |- *. intuition.
 Qed.
 
 Lemma primary_spec sn u :
@@ -671,7 +659,7 @@ Proof.
     apply (count_by_key (fun row : N * cand => c_kind (snd row)) root_kinds (attributed sn) root_kinds_nodup).
     intros row Hr. apply (attributed_root_kinds sn). exact Hr. }
   rewrite Hsum. rewrite <- Nat2N.inj_add. f_equal.
-  unfold cyclic_ids.
+  rewrite cyclic_ids_spec.
   rewrite <- (map_length fst (attributed sn)).
   rewrite <- (filter_mem_length (map fst (attributed sn)) (U_ids sn)
                (attributed_nodup_snap sn Hwf) (U_ids_nodup sn Hwf) (attributed_incl_snap sn Hwf)).
@@ -689,11 +677,11 @@ Proof.
     cbn in Hfst. subst. split.
     + exists r. split; [exact Hin|]. intros r' Hr'. eapply NoDup_map_fst_fun; eauto.
       apply attributed_nodup_snap. exact Hwf.
-    + unfold cyclic_ids. rewrite filter_In. rewrite E'. cbn. intros [_ H]. discriminate.
+    + rewrite cyclic_ids_spec. rewrite filter_In. rewrite E'. cbn. intros [_ H]. discriminate.
   - right. split.
     + intros r Hr. assert (memN u (map fst (attributed sn)) = true); [|congruence].
       apply memN_In. apply in_map_iff. exists (u, r). auto.
-    + unfold cyclic_ids. apply filter_In. rewrite E. auto.
+    + rewrite cyclic_ids_spec. apply filter_In. rewrite E. auto.
 Qed.
 
 (* class_of agrees with the rows. *)
@@ -753,10 +741,12 @@ Proof.
   split; [|tauto].
   intros s Hs Hr. destruct (Hst s Hs) as [Hv [Hnr Hnc]].
   unfold n_failed_attached in Hf. assert (Hf' : length (filter (fun s => is_failed s && negb (s_detached s)) (sn_steps sn)) = 0%nat) by lia.
-  assert (Hp' : length (U sn) = 0%nat) by lia. unfold U in Hp'.
+  assert (Hp' : length (U sn) = 0%nat).
+  { unfold U. rewrite <- (filter_ext _ _ (ntotal_is_U sn)). lia. }
+  unfold U in Hp'.
   pose proof (length_filter_zero _ _ Hf' s Hs) as F1. pose proof (length_filter_zero _ _ Hp' s Hs) as F2.
   cbn in F1. unfold required in Hr. apply andb_true_iff in Hr. destruct Hr as [Hr1 Hr2].
-  unfold in_U in F2. rewrite Hr1, Hr2 in F2. rewrite Hr2 in F1. rewrite !andb_true_r in *.
+  rewrite in_U_spec in F2. rewrite Hr1, Hr2 in F2. rewrite Hr2 in F1. rewrite !andb_true_r in *.
   unfold is_failed in F1. apply N.eqb_neq in F1, F2.
   destruct Hv as [H|[H|[H|[H|H]]]]; congruence.
 Qed.
